@@ -52,8 +52,19 @@ def gen_layout(rng, tier):
         regs.append({"width": width, "access": acc, "place": place,
                      "addr_r": rng.random(), "extra": rng.choice([0, 0, 1, 2]),
                      "alignment": rng.choice([None, None, 0, 1, 2])})
+    bank = (not large) and rng.random() < 0.06
+    if bank:
+        # a bank of many small registers (status / doorbell arrays): with the default sharing limit they all share
+        # the same one or two shadow chunks
+        n_b = rng.choice([17, 18, 20, 23, 33, 40])
+        dw = rng.choice([8, 8, 16, 32])
+        aw, al = (2 * n_b - 1).bit_length(), 0
+        regs = [{"width": rng.choice([dw, dw, 1, dw - 1, 2 * dw]) if rng.random() < 0.9 else 0,
+                 "access": rng.choice(["r", "r", "rw", "rw", "w"]), "place": "implicit", "addr_r": 0.0, "extra": 0,
+                 "alignment": None} for _ in range(n_b)]
     return {"aw": aw, "dw": dw, "al": al, "regs": regs,
-            "overlaps": rng.choice([None, None, 0, 1, 2, 3]) if not large else rng.choice([None, 0, 0, 1, 2]),
+            "overlaps": (rng.choice([None, None, 0, 1, 2, 3]) if not large else rng.choice([None, 0, 0, 1, 2])) if not bank else
+            rng.choice([None, None, None, 20]),
             "mode": rng.choice(["conf", "conf", "conf", "mixed", "raw"]),
             "cycles": (260 if tier == "quick" else 700) * (2 if large else 1) * (8 if rng.random() < 0.04 else 1)}
 
